@@ -588,3 +588,77 @@ func (f *Func) addressTaken(obj types.Object) bool {
 	})
 	return found
 }
+
+// valueOf: what a local variable stands for where it is read: a local that is written exactly once (a declaration without
+// value aside) and whose address is never taken is its defining expression; anything else is returned as it stands.
+func (f *Func) valueOf(e ast.Expr) ast.Expr {
+	id, ok := ast.Unparen(e).(*ast.Ident)
+	if !ok {
+		return e
+	}
+	v, ok := f.ObjOf(id).(*types.Var)
+	if !ok || v.IsField() || v.Pkg() == nil || v.Parent() == v.Pkg().Scope() || f.Root().addressTaken(v) {
+		return e
+	}
+	var def ast.Expr
+	n := 0
+	for _, w := range Writes(f.Root().Body, true) {
+		if f.ObjOf(w.LHS) != types.Object(v) {
+			continue
+		}
+		if w.RHS == nil && w.Tok == token.DEFINE {
+			if _, isVS := w.Stmt.(*ast.ValueSpec); isVS {
+				continue
+			}
+		}
+		n++
+		def = w.RHS
+	}
+	if n == 1 && def != nil {
+		return def
+	}
+	return e
+}
+
+// emptySlice: e evaluates to a slice without elements. nonNil: it is also not nil (an empty literal or make(T, 0[, cap])),
+// which is what encodes as [] rather than null.
+func (f *Func) emptySlice(e ast.Expr) (empty, nonNil bool) {
+	if e == nil {
+		return false, false
+	}
+	e = ast.Unparen(e)
+	if isNilIdent(e) {
+		return true, false
+	}
+	switch y := e.(type) {
+	case *ast.CompositeLit:
+		if _, isSl := f.TypeOf(y).Underlying().(*types.Slice); isSl && len(y.Elts) == 0 {
+			return true, true
+		}
+	case *ast.CallExpr:
+		if f.BuiltinName(y) == "make" && len(y.Args) >= 2 {
+			if _, isSl := f.TypeOf(y).Underlying().(*types.Slice); isSl {
+				if z, ok := f.ConstInt(y.Args[1]); ok && z == 0 {
+					return true, true
+				}
+			}
+		}
+		if len(y.Args) == 1 && isNilIdent(y.Args[0]) {
+			if tv, ok := f.Info().Types[y.Fun]; ok && tv.IsType() {
+				return true, false // []T(nil)
+			}
+		}
+	}
+	return false, false
+}
+
+// insideLoop: n stands in the body of a for or range statement of this function.
+func (f *Func) insideLoop(n ast.Node) bool {
+	return f.Enclosing(n, func(x ast.Node) bool {
+		switch x.(type) {
+		case *ast.ForStmt, *ast.RangeStmt:
+			return true
+		}
+		return false
+	}) != nil
+}
